@@ -200,6 +200,9 @@ fn from_arc_f64(d: &mut Draw) -> Outcome {
         // far outside the band of the near-parallel allowance, but with |src|^2 |dst|^2 and the
         // separation mag (1 -+ cos) well inside what f64 resolves
         (d.f64_log(1e-6, 1e70), d.f64_log(1e-6, 1e70))
+    } else if d.chance(1, 5) {
+        // "already unit", nearly: lengths 1 up to a relative 1e-12 .. 1e-3
+        (1.0 + d.f64_slog(1e-12, 1e-3), if d.bool() { 1.0 } else { 1.0 + d.f64_slog(1e-12, 1e-3) })
     } else {
         (d.f64_log(1e-3, 1e3), d.f64_log(1e-3, 1e3))
     };
